@@ -173,6 +173,15 @@ func MakeItem(it Item, id int, y Yielder, log *EventLog) interface{} {
 	b := simBase{id: id, text: it.S, y: y, log: log}
 	switch it.K {
 	case "s":
+		if it.N >= 1000 {
+			// a long text: S repeated up to N bytes
+			b := make([]byte, 0, it.N)
+			for len(b) < it.N {
+				b = append(b, it.S...)
+				b = append(b, ' ')
+			}
+			return string(b)
+		}
 		return it.S
 	case "i":
 		return it.N
